@@ -37,8 +37,12 @@ func runReplay(w *World, prop string, o *Obligation, rp *Replay) {
 	}
 	// generic recipe: direct call with scalar arguments taken from the model
 	if o.fx.C != nil && o.fx.C.Flags["replay_go"] != "" {
-		replayScalarCall(w, prop, o, rp)
+		if replayScalarCall(w, prop, o, rp) {
+			return
+		}
 	}
+	// safety obligations of plain functions over strings/integers/booleans: call and watch for a panic
+	replayPanic(w, prop, o, rp)
 }
 
 // modelInt parses an SMT integer value.
@@ -167,4 +171,189 @@ func runOverlayTest(w *World, testSrc, run string) (string, bool) {
 	text := out.String()
 	failed := strings.Contains(text, "--- FAIL") || strings.Contains(text, "panic:") || strings.Contains(text, "FAIL\t")
 	return text, failed
+}
+
+// ---------------------------------------------------------------- generic replay of safety refutations
+// For a refuted safety obligation (index, slice bound, division, type assertion, nil map, unhashable
+// key, make) in a plain function whose parameters are strings, integers and booleans, the solver's
+// model is turned into concrete arguments - strings byte by byte through get-value on slen/sat,
+// asking for a short witness first - and the real function is called under `go test -overlay`; a
+// panic is the reproduction.
+
+// modelValues asks z3 for the values of the given terms in a model of the obligation's query
+// (optionally under extra assertions). Returns nil when the query is not satisfiable (any more).
+func modelValues(o *Obligation, extra []string, terms []string) []string {
+	if len(terms) == 0 {
+		return []string{}
+	}
+	body := o.query() + "\n" + strings.Join(extra, "\n") + "\n(check-sat)\n(get-value (" + strings.Join(terms, " ") + "))\n"
+	f, err := os.CreateTemp("", "govc-mv-*.smt2")
+	if err != nil {
+		return nil
+	}
+	defer os.Remove(f.Name())
+	f.WriteString(body)
+	f.Close()
+	ctx, cancel := context.WithTimeout(context.Background(), 30*time.Second)
+	defer cancel()
+	out, _ := exec.CommandContext(ctx, "z3-new", "-T:20", f.Name()).CombinedOutput()
+	text := string(out)
+	if firstLine(text) != "sat" {
+		return nil
+	}
+	i := strings.Index(text, "((")
+	if i < 0 {
+		return nil
+	}
+	// parse ((term value) (term value) ...): values are the last s-expression of each pair
+	var vals []string
+	rest := text[i+1:]
+	for len(vals) < len(terms) {
+		j := strings.Index(rest, "(")
+		if j < 0 {
+			break
+		}
+		pair, k := readSexp(rest, j)
+		if pair == "" {
+			break
+		}
+		inner := strings.TrimSpace(pair[1 : len(pair)-1])
+		// skip the term (first s-expression), keep the value
+		_, e := readSexp(inner, 0)
+		vals = append(vals, strings.TrimSpace(inner[e:]))
+		rest = rest[k:]
+	}
+	if len(vals) != len(terms) {
+		return nil
+	}
+	return vals
+}
+
+// modelArgs builds Go literals for the parameters from a (short) model.
+func modelArgs(o *Obligation) (decls []string, names []string, ok bool) {
+	fx := o.fx
+	fn := fx.Fn
+	var extra []string
+	var strTerms []string
+	for _, p := range fn.Params {
+		b, isBasic := p.Type().Underlying().(*types.Basic)
+		if !isBasic {
+			return nil, nil, false
+		}
+		if b.Info()&types.IsString != 0 {
+			strTerms = append(strTerms, fx.params[p.Name()].S)
+		} else if b.Info()&(types.IsInteger|types.IsBoolean) == 0 {
+			return nil, nil, false
+		}
+	}
+	// prefer a witness with short strings
+	for _, bound := range []int{8, 64, 2000, -1} {
+		extra = extra[:0]
+		if bound >= 0 {
+			for _, t := range strTerms {
+				extra = append(extra, fmt.Sprintf("(assert (<= (slen %s) %d))", t, bound))
+			}
+		}
+		var lens []string
+		for _, t := range strTerms {
+			lens = append(lens, "(slen "+t+")")
+		}
+		lv := modelValues(o, extra, lens)
+		if lv == nil {
+			if len(strTerms) == 0 {
+				return nil, nil, false
+			}
+			continue
+		}
+		// fix the lengths, then ask for bytes and scalars together
+		var terms []string
+		for i, t := range strTerms {
+			n, okn := modelInt(lv[i])
+			if !okn || n < 0 || n > 5000 {
+				return nil, nil, false
+			}
+			extra = append(extra, fmt.Sprintf("(assert (= (slen %s) %d))", t, n))
+			for k := int64(0); k < n; k++ {
+				terms = append(terms, fmt.Sprintf("(sat %s %d)", t, k))
+			}
+		}
+		for _, p := range fn.Params {
+			if b := p.Type().Underlying().(*types.Basic); b.Info()&types.IsString == 0 {
+				terms = append(terms, fx.params[p.Name()].S)
+			}
+		}
+		vals := modelValues(o, extra, terms)
+		if vals == nil {
+			continue
+		}
+		pos := 0
+		strVals := map[string]string{}
+		for i, t := range strTerms {
+			n, _ := modelInt(lv[i])
+			var bs []byte
+			for k := int64(0); k < n; k++ {
+				v, okv := modelInt(vals[pos])
+				pos++
+				if !okv {
+					return nil, nil, false
+				}
+				bs = append(bs, byte(((v%256)+256)%256))
+			}
+			strVals[t] = strconv.Quote(string(bs))
+		}
+		for _, p := range fn.Params {
+			b := p.Type().Underlying().(*types.Basic)
+			names = append(names, p.Name())
+			if b.Info()&types.IsString != 0 {
+				decls = append(decls, fmt.Sprintf("\t%s := %s", p.Name(), strVals[fx.params[p.Name()].S]))
+				continue
+			}
+			v := vals[pos]
+			pos++
+			switch {
+			case b.Info()&types.IsBoolean != 0:
+				decls = append(decls, fmt.Sprintf("\t%s := %s", p.Name(), v))
+			default:
+				n, okv := modelInt(v)
+				if !okv {
+					return nil, nil, false
+				}
+				decls = append(decls, fmt.Sprintf("\tvar %s %s = %d", p.Name(), types.TypeString(p.Type(), func(*types.Package) string { return "" }), n))
+			}
+		}
+		return decls, names, true
+	}
+	return nil, nil, false
+}
+
+// replayPanic: call the function with the model's arguments; a panic reproduces the refutation.
+func replayPanic(w *World, prop string, o *Obligation, rp *Replay) bool {
+	fn := o.fx.Fn
+	if fn.Signature.Recv() != nil || fn.Parent() != nil || !safetyKinds[o.Kind] {
+		return false
+	}
+	decls, names, ok := modelArgs(o)
+	if !ok {
+		return false
+	}
+	body := fmt.Sprintf(`package twig
+
+import "testing"
+
+func TestVerifReplay(t *testing.T) {
+%s
+	defer func() {
+		if r := recover(); r != nil {
+			t.Fatalf("REPRODUCED: %s panics: %%v", r)
+		}
+	}()
+	%s(%s)
+}
+`, strings.Join(decls, "\n"), fn.Name(), fn.Name(), strings.Join(names, ", "))
+	out, failed := runOverlayTest(w, body, "TestVerifReplay")
+	rp.ReplayKind = "panic_call"
+	rp.ReplayInput = map[string]any{"test_source": body}
+	rp.ReplayOut = out
+	rp.Reproduced = failed && strings.Contains(out, "REPRODUCED")
+	return true
 }
